@@ -11,38 +11,69 @@ open Bifrost Bifrost.Codec
 equals the stored digest. -/
 theorem verifyData_ok_iff (sum : Int → Bytes → Option Bytes) (h : Hash) (data : Bytes) :
     Hash.verifyData sum h data = true ↔ sum h.type data = some h.digest := by
-  sorry
+  unfold Hash.verifyData
+  cases hs : sum h.type data with
+  | none => simp
+  | some d =>
+    simp only [Bool.and_eq_true, decide_eq_true_eq, Option.some.injEq]
+    constructor
+    · intro hd; exact hd.2
+    · intro hd; subst hd; exact ⟨rfl, rfl⟩
 
 /-- `Validate` as coded: type ∈ {0,1,2,3} and digest of that type's length. -/
 theorem validate_iff (h : Hash) :
     h.valid = true ↔ (h.type = 0 ∨ h.type = 1 ∨ h.type = 2 ∨ h.type = 3) ∧ h.digest.length = hashLen h.type := by
-  sorry
+  unfold Hash.valid hashTypeValid
+  simp only [Bool.and_eq_true, decide_eq_true_eq]
 
 /-- PARTIAL: every valid hash with a non-zero type has a known algorithm and a digest of
 exactly that algorithm's length. -/
 theorem valid_known_partial (h : Hash) (hv : h.valid = true) (hz : h.type ≠ 0) :
     hashTypeSupported h.type = true ∧ h.digest.length = hashLen h.type ∧ 0 < h.digest.length := by
-  sorry
+  have hv' := hv
+  unfold Hash.valid hashTypeValid at hv'
+  simp only [Bool.and_eq_true, decide_eq_true_eq] at hv'
+  obtain ⟨ht, hl⟩ := hv'
+  have ht3 : h.type = 1 ∨ h.type = 2 ∨ h.type = 3 := by
+    rcases ht with h0 | h1
+    · exact absurd h0 hz
+    · exact h1
+  refine ⟨?_, hl, ?_⟩
+  · unfold hashTypeSupported
+    simpa using ht3
+  · rw [hl]
+    rcases ht3 with e | e | e <;> rw [e] <;> decide
 
 /-- Known finding F6: "a hash is valid only if its algorithm is known" is FALSE: the
 UNKNOWN/empty hash validates. -/
 theorem valid_implies_known_false : ¬ (∀ h : Hash, h.valid = true → hashTypeSupported h.type = true) := by
-  sorry
+  intro hall
+  have := hall ⟨0, []⟩ (by decide)
+  revert this
+  decide
 
 /-- Hashes survive the binary encoding unchanged: every int32 type, every digest. -/
 theorem unmarshal_marshal (h : Hash) (hlo : -(2 ^ 31) ≤ h.type) (hhi : h.type < 2 ^ 31)
     (hl : h.digest.length < 2 ^ 63) : Hash.unmarshal h.marshal = some h := by
-  sorry
+  exact Hash.unmarshal_marshal h hlo hhi hl
 
 /-- …and the base58 encoding (the all-default hash has the empty encoding, which base58
 text cannot carry). -/
 theorem parse_marshalString (h : Hash) (hlo : -(2 ^ 31) ≤ h.type) (hhi : h.type < 2 ^ 31)
     (hl : h.digest.length < 2 ^ 63) (hne : h.marshal ≠ []) :
     Hash.parseFromB58 h.marshalString = some h := by
-  sorry
+  unfold Hash.parseFromB58 Hash.marshalString
+  rw [B58.decode_encode h.marshal hne]
+  exact Hash.unmarshal_marshal h hlo hhi hl
 
 theorem compare_iff (a b : Hash) : Hash.compare a b = true ↔ a = b := by
-  sorry
+  unfold Hash.compare
+  simp only [Bool.and_eq_true, decide_eq_true_eq]
+  constructor
+  · rintro ⟨⟨ht, _⟩, hd⟩
+    cases a; cases b
+    simp_all
+  · intro e; subst e; exact ⟨⟨rfl, rfl⟩, rfl⟩
 
 example : Hash.unmarshal (Hash.marshal ⟨3, List.replicate 32 9⟩) = some ⟨3, List.replicate 32 9⟩ := by
   decide
